@@ -347,4 +347,4 @@ LEVEL_NOTE = ("Partial for memory safety: the Coq statement is about the bounds-
               "them -- two -xg therefore do not both exclude); the runner beyond 'rejected => usage/help printed, nothing runs' belongs "
               "to C01/C02.")
 TECHNIQUE = "Coq proof over hand-written executable models (list level + bounds-checked buffer level) driven by source-extracted dispatch/help tables + differential check under sanitizers"
-READY = False
+READY = True
